@@ -50,7 +50,17 @@ const TARGETS: &[Target] = &[
         ty: "Driver",
         tr: None,
         func: "poll_entries",
-        calls: &["completion", "more", "insert", "clear"],
+        // every call on the notifier / the awake flag counts: the NOTIFY branch may clear the eventfd and re-arm,
+        // it must not touch the flag (poll_entries also runs on the overflow path of push_raw, outside poll)
+        calls: &["completion", "more", "insert", "clear", "set_awake", "reset", "set", "wake", "waker", "remove"],
+    },
+    Target {
+        lean: "iourPushRaw",
+        file: "compio-driver/src/sys/driver/iour/mod.rs",
+        ty: "Driver",
+        tr: None,
+        func: "push_raw",
+        calls: &["submission", "push", "sync", "submit_auto", "poll_entries", "set_awake", "reset", "set", "wake", "clear"],
     },
     Target {
         lean: "iourArmNotifier",
